@@ -26,6 +26,14 @@ def main():
         shutil.rmtree(keep)
     for row in rows:
         print("%-8s %-12s %5.1fs  %s" % (row[0], row[1], row[3], row[2]))
+    # remember the outcome of every run (seeded/RESULTS.json: what DESIGN.md's table is generated from)
+    rp = os.path.join(HOME, 'seeded', 'RESULTS.json')
+    res = json.load(open(rp)) if os.path.exists(rp) else {}
+    for row in rows:
+        if row[1].startswith('exit='):
+            res[row[0]] = {'exit': int(row[1][5:]), 'first_report': row[2], 'seconds': round(row[3], 1), 'tier': tier,
+                           'violation_lines': row[4] if len(row) > 4 else []}
+    json.dump(res, open(rp, 'w'), indent=1, sort_keys=True)
 
 
 def _run(want, tier, claimed, rows):
@@ -47,7 +55,16 @@ def _run(want, tier, claimed, rows):
             vio = [l for l in c.stdout.splitlines() if l.startswith('VIOLATION')]
             fail = [l.strip() for l in c.stdout.splitlines() if l.strip().startswith('FAILED')]
             chk = [l for l in c.stderr.splitlines() if l.startswith('CHECKER')]
-            rows.append((d, 'exit=%d' % c.returncode, (fail[0] if fail else (chk[0] if chk else ''))[:150], time.time() - t))
+            first = fail[0] if fail else (chk[0] if chk else '')
+            if not fail and vio:
+                # a bounded companion found a failing input: say what it saw
+                try:
+                    rp_ = vio[0].split('replay=')[1].split()[0]
+                    what = json.load(open(os.path.join(HOME, rp_))).get('what') or []
+                    first = "bounded: " + str(what[0] if what else rp_)
+                except Exception:
+                    first = vio[0]
+            rows.append((d, 'exit=%d' % c.returncode, first[:220], time.time() - t, vio[:3]))
         finally:
             subprocess.run(['git', '-C', REPO, 'checkout', '--', '.'])
             subprocess.run(['git', '-C', REPO, 'clean', '-fdq'])
